@@ -63,6 +63,33 @@ CHECKS = {
                 "charmap models validated each run. No axioms.",
         "technique": "Coq proof (stack-machine invariant of Clean over all byte strings) + differential correspondence on path functions + sandbox effect oracle",
     },
+    "C08": {
+        "text": "Theorems (Props/C08.v) over the model of HandleDownloadFile + DownloadHandler: for ALL contents, names, stored-fork combinations and "
+                "resume offsets 0 <= k <= size the stream is header (unless preview) ++ EXACTLY dropN k data ++ resource-fork part; a preview is the "
+                "bare data; the reply's file-size field is size - k and, without a stored resource fork, the transfer size is |header| + size - k "
+                "(uint32 arithmetic modelled); the header's INFO-fork size field equals the length of the information fork that follows and a "
+                "synthesised fork's name-size equals the name length (parsed by the reference combinators for arbitrary trailing bytes). "
+                "Correspondence: real files of 0..100,000 bytes (1-3 MiB in the thorough tier; contents as shared patterns, streams as "
+                "digests), names of 1-240 bytes, with/without .info_ and .rsrc_ side files, offsets {0,1,mid,size-1,size}, preview and explicit "
+                "resume-at-0, through the real handler and DownloadHandler; the model predicts reply fields and the whole byte stream.",
+        "note": "Header fields the property does not constrain are model inputs. The empty MACR header after a complete download of a fork-less file "
+                "is read as permitted. Trusted: os reads, io.Copy. No axioms.",
+        "technique": "Coq proof over the stream/reply model + differential correspondence on real files through the real handlers",
+    },
+    "C09": {
+        "text": "Theorems (Props/C09.v): for every content d, name and reference, and EVERY sequence of connection cuts (any number; each at any byte "
+                "offset of that attempt's stream, i.e. inside the 16-byte preamble, inside the flattened-file header, inside the data) by the "
+                "honest resuming client: after each attempt final = none and partial = a prefix of d, or final = d and no partial "
+                "(invariant by induction over the cut list, using a stage-by-stage characterisation of what the server parses from a cut "
+                "stream); an uncut attempt completes to exactly d from any invariant state; the reported resume offset is the partial "
+                "file's size; an existing file is never replaced (request and transfer refused, nothing touched); the download stream of the "
+                "result carries d. Correspondence: generated histories (sizes 0..70,000, up to 6 cuts in every region incl. 32 KiB chunk "
+                "boundaries, completion, then a further upload attempt; histories with a pre-existing file) through the real "
+                "HandleUploadFile/UploadHandler, and a few through the real handleFileTransfer over a connection that is closed mid-stream; "
+                "after every attempt the final and .incomplete files are read back.",
+        "note": "Honest resuming client, default configuration, one upload per name at a time. Trusted: O_APPEND writes, io.CopyN, rename. No axioms.",
+        "technique": "Coq proof (invariant over all cut sequences; staged-parse lemma over cut streams) + differential correspondence over cut histories",
+    },
     "C13": {
         "text": "Theorems (Props/C13.v): (new_id_is_free) the repaired allocation loop never returns an ID in use while any of the 65,536 IDs is free, for "
                 "any counter value (wrap included) - by an induction over the loop plus a covering lemma for 65,536 successive counter values; "
